@@ -160,6 +160,34 @@ Definition c_truncate (ms size : string) : string := show_msg (truncate (parse_m
 Definition c_pack_buf (ms buflen : string) : string :=
   show_r (fun p : bytes * bool => hex (fst p) +++ "," +++ showb (snd p))%string (pack_msg_buf (parse_msg ms) (undec buflen)).
 
+(* a sequence of packDomainName calls sharing one internal compression map,
+   starting at offset pad in a buffer of cap octets: "name:flag" items *)
+Fixpoint pack_name_seq (items : list string) (cap : N) (st : pn_state) : res pn_state :=
+  match items with
+  | [] => Ok st
+  | it :: r =>
+    match split_on ":" it with
+    | [n; f] => do st' <- pack_name (unhex n) cap (is1 f) st; pack_name_seq r cap st'
+    | _ => Err "bad-item"
+    end
+  end.
+Fixpoint ins_sorted (x : string) (l : list string) : list string :=
+  match l with
+  | [] => [x]
+  | y :: r => if String.leb x y then x :: l else y :: ins_sorted x r
+  end.
+Definition sort_strings (l : list string) : list string := fold_left (fun a x => ins_sorted x a) l [].
+Definition show_cmap (cm : option cmap) : string :=
+  match cm with
+  | None => "nomap"%string
+  | Some l => join ";"%string (sort_strings (map (fun p : bytes * N => hex (fst p) +++ "=" +++ dec (snd p))%string l))
+  end.
+Definition c_pack_names (pad cap items : string) : string :=
+  let p := undec pad in
+  let st0 := {| pn_out := repeat 0 (N.to_nat p); pn_cm := Some [] |} in
+  show_r (fun st => hex (dropN p (pn_out st)) +++ "#" +++ show_cmap (pn_cm st))%string
+         (pack_name_seq (split_list "," items) (undec cap) st0).
+
 Definition run_wire (fn : string) (args : list string) : option string :=
   if String.eqb fn "pack_rr" then Some (c_pack_rr (arg args 0) (arg args 1))
   else if String.eqb fn "unpack_rr" then Some (c_unpack_rr (arg args 0) (arg args 1))
@@ -167,6 +195,7 @@ Definition run_wire (fn : string) (args : list string) : option string :=
   else if String.eqb fn "unpack_msg" then Some (c_unpack_msg (arg args 0))
   else if String.eqb fn "len_msg" then Some (c_len_msg (arg args 0))
   else if String.eqb fn "len_rr" then Some (c_len_rr (arg args 0))
+  else if String.eqb fn "pack_names" then Some (c_pack_names (arg args 0) (arg args 1) (arg args 2))
   else if String.eqb fn "truncate" then Some (c_truncate (arg args 0) (arg args 1))
   else if String.eqb fn "pack_buf" then Some (c_pack_buf (arg args 0) (arg args 1))
   else None.
